@@ -103,6 +103,23 @@ func (r *ResponseFilterWriter) WriteHeader(code int) {
 	r.statusCodeWritten = true
 }
 
+// Flush commits the header first, so that the decision whether to compress
+// (and with it the Content-Encoding header) is made before anything reaches
+// the client; a handler that flushed before its first write used to get a
+// compressed body sent without the header announcing it. Compressed data
+// buffered so far is flushed as well.
+func (r *ResponseFilterWriter) Flush() {
+	if !r.statusCodeWritten {
+		r.WriteHeader(http.StatusOK)
+	}
+	if r.shouldCompress {
+		if gzWriter, ok := r.gzipResponseWriter.Writer().(*gzip.Writer); ok {
+			gzWriter.Flush()
+		}
+	}
+	r.gzipResponseWriter.Flush()
+}
+
 // Write wraps underlying Write method and compresses if filters
 // are satisfied
 func (r *ResponseFilterWriter) Write(b []byte) (int, error) {
